@@ -15,7 +15,7 @@ from symv.hooks import Hooks
 
 META = {
     "level": "exploration",
-    "level_text": "Five monitors. (1) Hook on the fuse-plan cache: every plan handed out (hit or miss) equals a fresh uncached computation, and every lru_cache'd helper equals its uncached function, while families of arrays that differ in exactly one attribute (direction, block size, charge label, missing sector, sub-index structure or sub-sector table behind an equal outer table, symmetry over equal labels, class kind, grouping, conj after the hash key was memoised) are visited in random orders with cache sizes {1,2,3,8192} and sector limits {1,512}; each result is also judged by the C05 placement oracle. (2) Black-box differential: one op list evaluated cold (cache off, all caches cleared before each op), warm, evicting, and in fresh subprocesses with SYMMRAY_FUSE_CACHE_MAXSIZE in {0,1,unset,junk} x MAXSECTORS in {1,unset}: digests identical. (3) default_tensordot_mode: nested, left normally and through exceptions (including a failing contraction), set_default(None) no-op; the global is read back after each. (4) 4-16 threads run out-of-place fuse/reshape/contraction/svd/transpose on shared arrays with cache size 2, a 1e-6 s switch interval and yields injected at 5% of executed library lines; every result digest must equal the sequential reference, no thread may raise, shared operands are unchanged. (5) The repository's own test suite is run once with the hooks of (1) attached (pytest plugin), as one more history. Verdicts are on logical results only; counters of hits, evictions, injected switches, distinct switch sites and interleaving signatures are reported. Later additions: nested fuse-chain, hash-twin (-1/-2), stripped-twin and lazy-Hermitian families; fresh-object thread rounds (never-hashed indices, yields at 50% inside hashkey); decorator form of the mode context re-entered recursively; fuse / shrink in place / fuse again; mutate the previous result then repeat every call; cache-key digest collision hunt.",
+    "level_text": "Five monitors. (1) Hook on the fuse-plan cache: every plan handed out (hit or miss) equals a fresh uncached computation, and every lru_cache'd helper equals its uncached function, while families of arrays that differ in exactly one attribute (direction, block size, charge label, missing sector, sub-index structure or sub-sector table behind an equal outer table, symmetry over equal labels, class kind, grouping, conj after the hash key was memoised) are visited in random orders with cache sizes {1,2,3,8192} and sector limits {1,512}; each result is also judged by the C05 placement oracle. (2) Black-box differential: one op list evaluated cold (cache off, all caches cleared before each op), warm, evicting, and in fresh subprocesses with SYMMRAY_FUSE_CACHE_MAXSIZE in {0,1,unset,junk} x MAXSECTORS in {1,unset}: digests identical. (3) default_tensordot_mode: nested, left normally and through exceptions (including a failing contraction), set_default(None) no-op; the global is read back after each. (4) 4-16 threads run out-of-place fuse/reshape/contraction/svd/transpose on shared arrays with cache size 2, a 1e-6 s switch interval and yields injected at 5% of executed library lines; every result digest must equal the sequential reference, no thread may raise, shared operands are unchanged. (5) The repository's own test suite is run once with the hooks of (1) attached (pytest plugin), as one more history. Verdicts are on logical results only; counters of hits, evictions, injected switches, distinct switch sites and interleaving signatures are reported. Later additions: nested fuse-chain, hash-twin (-1/-2), stripped-twin and lazy-Hermitian families; fresh-object thread rounds (never-hashed indices, yields at 50% inside hashkey); decorator form of the mode context re-entered recursively; fuse / shrink in place / fuse again; mutate the previous result then repeat every call; cache-key digest collision hunt. Round 9: the plain setter called inside the mode context (entered with the mode in force or another one), with and without an error afterwards.",
     "technique": "runtime monitoring: internal state hook (cached vs recomputed plan), differential digests across cache configurations / histories / processes, thread stress with injected yields vs sequential reference",
     "rule": (
         "evaluations = hooked plan comparisons + differential op comparisons + mode-context checks + thread-run op comparisons. Non-trivial = a fuse-plan cache HIT served while a near-identical sibling populated / occupies the cache "
